@@ -128,6 +128,9 @@ def binop(I, op, a, b, lineno=0, inplace=False):
         raise Unsupported(f'string operator {t.__name__}')
     if is_stringy(a) and t is ast.Mult and isinstance(b, int):
         return str_concat(I, [a] * b)
+    if isinstance(a, bytes) and t is ast.Mult and is_z3(b):
+        from . import arrays
+        return arrays.repeat_bytes(I, a, b)
     if is_stringy(a) and t is ast.Mod:
         raise Unsupported('%-formatting')
     if isinstance(a, SSet) or isinstance(b, SSet) or isinstance(a, (set, frozenset)) or isinstance(b, (set, frozenset)):
@@ -592,6 +595,14 @@ def slice_bounds(I, sl: SliceVal, length):
 
 
 def subscript(I, obj, idx, lineno=0):
+    from . import arrays
+    if isinstance(obj, arrays.SArr):
+        return arrays.get(I, obj, idx, lineno)
+    if isinstance(obj, arrays.View):
+        if isinstance(idx, SliceVal):
+            raise Unsupported('slice of a buffer slice')
+        i = norm_index(I, arrays.as_int(idx), obj.count, lineno)
+        return obj.fn(to_z3(i))
     if isinstance(obj, Obj):
         fn = I.find_method(obj, '__getitem__')
         if fn is None:
@@ -685,6 +696,9 @@ def index_concrete(I, items: list, idx, lineno):
 
 
 def store_subscript(I, obj, idx, v, lineno=0):
+    from . import arrays
+    if isinstance(obj, arrays.SArr):
+        return arrays.store(I, obj, idx, v, lineno)
     if isinstance(obj, Obj):
         fn = I.find_method(obj, '__setitem__')
         if fn is None:
@@ -1333,6 +1347,11 @@ def make_builtins(I) -> dict:
             return z3.Length(x.expr)
         if is_sym_str(x) or is_sym_seq(x):
             return z3.Length(x)
+        from . import arrays
+        if isinstance(x, arrays.SArr):
+            return x.length
+        if isinstance(x, arrays.View):
+            return x.count
         if isinstance(x, GenVal):
             I.raise_('TypeError', 'len of generator')
         if isinstance(x, Obj):
@@ -1503,10 +1522,17 @@ def make_builtins(I) -> dict:
         d.items.update(kw)
         return d
 
+    @reg('memoryview')
+    def _memoryview(x):
+        return x
+
     @reg('bytes')
     def _bytes(x=b'', *a):
         if is_concrete(x):
             return bytes(x, *a)
+        if is_sym_int(x):
+            from . import arrays
+            return arrays.zeros(I, x)
         if isinstance(x, SSeq):
             return SSeq(x.expr, 'bytes', fresh=True)
         if isinstance(x, PList):
